@@ -71,7 +71,9 @@ class UnicodeForPython3(str):
             return f"""u'{str(self.value)[1:]}'"""
 
         if is_ascii(utf8_value):
-            return f"""u'{utf8_value}'"""
+            # repr() escapes control characters, quotes and backslashes
+            # the way Python 2 does: u'%s\n', not a line break in the output.
+            return "u" + repr(utf8_value)
 
         # Turn the unicode character into its Unicode code point,
         # but strip of the leading "0x".
